@@ -30,7 +30,9 @@ OVERLAY_SRC = os.path.join(VERIF, "harness", "overlay")
 NCPU = int(os.environ.get("VERIF_WORKERS", "0") or 0) or os.cpu_count() or 4
 
 GOENV = {
-    "GOFLAGS": "-mod=mod",
+    # readonly: a harness importing a module that is not a direct requirement fails the build instead of
+    # silently rewriting /repo/go.mod
+    "GOFLAGS": "-mod=readonly",
     "GOPROXY": "off",
     "GOSUMDB": "off",
     "GOTOOLCHAIN": "local",
@@ -385,14 +387,14 @@ def tlc(ctx, module, cfg, workers=None, timeout=900, simulate=None, depth=None, 
     if coverage:
         res.zero_cov = re.findall(r"^<(\w+) line[^\n]*>: 0:0$", out, flags=re.M)
     vm = re.search(r"Error: Invariant (\w+) is violated", out)
-    pm = re.search(r"Error: (?:Temporal properties were violated|Action property (\w+) is violated)", out)
+    pm = re.search(r"Error: (?:Temporal properties were violated|Temporal property (\w+) was violated|Action property (\w+) is violated)", out)
     pc = re.search(r"Error: (?:The postcondition|Evaluating.*postcondition|POSTCONDITION)[^\n]*", out)
     if "Deadlock reached" in out:
         res.violated = "Deadlock"
     if vm:
         res.violated = vm.group(1)
     elif pm:
-        res.violated = pm.group(1) or "TemporalProperty"
+        res.violated = pm.group(1) or pm.group(2) or "TemporalProperty"
     elif re.search(r"Postcondition .*violated|postcondition was violated|Error: The postcondition", out, re.I):
         res.violated = "Postcondition"
     if res.violated:
